@@ -3,7 +3,8 @@ inputs bound to them, under the real simulation executor.
 
 Case lines
   1 start end
-  2 <shape>                  preorder: 0 = TS<int64> | 1 n c1..cn = TSB | 2 n c = TSL<c, n> | 3 c = TSD<int64, c>
+  2 <shape>                  preorder: 0 = TS<int64> | 1 n c1..cn = TSB | 2 n c = TSL<c, n> (n = 0: unbounded, grows when a
+                             higher index is written) | 3 c = TSD<int64, c>
   4 kind bind_at path...     a consumer node bound to the source output (node index = position + 1)
        kind 0 passive, woken every smallest step, reports every view after every cycle (must be LAST)
        kind 1 active on the root   kind 2 active on the child at `path` (TSB/TSL indices)
@@ -25,6 +26,7 @@ Observation lines (per cycle, in this order)
        delta: TS the delta value; TSB/TSL bit mask of the children in the delta; TSD -1; -2 sampled whole value
   24 who t plen path... keys...   live keys of a TSD node (sorted)
   22 who t plen path... keys...   the keys the TSD itself reports modified in this cycle (modified_keys())
+  32 who t plen path... flag indices...   unbounded TSL: flag = the view says the list is modified; then modified_indices()
   31 who t plen path... flag keys...   flag 1: the TSD's own per-tick delta is readable; keys of its "modified" map
 """
 import random
@@ -40,17 +42,19 @@ KEYS = [1, 2, 3, 5]
 
 
 # ---------------------------------------------------------------- shapes
-def gen_shape(rng, depth, allow_dict=True):
-    """nested list form: 0 | [1, kids] | [2, n, elem] | [3, elem]"""
+def gen_shape(rng, depth, allow_dict=True, allow_dyn=False):
+    """nested list form: 0 | [1, kids] | [2, n, elem] | [3, elem]     ([2, 0, elem] = unbounded TSL)"""
     if depth <= 1 or rng.random() < 0.25:
         return 0
     r = rng.random()
     if r < 0.42:
         n = rng.randint(1, 3)
-        return [1, [gen_shape(rng, depth - 1, allow_dict) for _ in range(n)]]
+        return [1, [gen_shape(rng, depth - 1, allow_dict, allow_dyn) for _ in range(n)]]
     if r < 0.68 or not allow_dict:
-        return [2, rng.randint(1, 3), gen_shape(rng, depth - 1, allow_dict)]
-    return [3, gen_shape(rng, depth - 1, allow_dict)]
+        if allow_dyn and rng.random() < 0.5:
+            return [2, 0, gen_shape(rng, depth - 1, False, False)]
+        return [2, rng.randint(1, 3), gen_shape(rng, depth - 1, allow_dict, allow_dyn)]
+    return [3, gen_shape(rng, depth - 1, allow_dict, False)]
 
 
 def enc_shape(s):
@@ -89,10 +93,41 @@ def kind(s):
     return 0 if s == 0 else s[0]
 
 
+DYN_MAX = 5      # indices 0..4 of an unbounded TSL are addressed by the generator
+
+
+def is_dyn(s):
+    """an unbounded TSL: TSL<elem, 0>"""
+    return s != 0 and s[0] == 2 and s[1] == 0
+
+
+def has_dyn(s):
+    if s == 0:
+        return False
+    if is_dyn(s):
+        return True
+    if s[0] == 3:
+        return has_dyn(s[1])
+    return any(has_dyn(c) for c in kids(s))
+
+
+def touches_dyn(shape, p):
+    """the path runs through / ends at / lies above an unbounded list"""
+    cur = shape
+    for i in p:
+        if is_dyn(cur):
+            return True
+        cur = cur[1] if kind(cur) == 3 else (kids(cur)[i] if kind(cur) != 0 and 0 <= i < len(kids(cur)) else 0)
+    return has_dyn(cur)
+
+
 def kids(s):
+    """children addressable by index (for an unbounded list: the DYN_MAX indices the generator uses)"""
     if s == 0 or s[0] == 3:
         return []
-    return s[1] if s[0] == 1 else [s[2]] * s[1]
+    if s[0] == 1:
+        return s[1]
+    return [s[2]] * (s[1] if s[1] else DYN_MAX)
 
 
 def has_dict(s):
@@ -109,7 +144,7 @@ def whole_ok(s, top=True):
         return True
     if s[0] == 3:
         return False
-    if s[0] == 2 and not top:
+    if s[0] == 2 and (not top or s[1] == 0):
         return False
     return all(whole_ok(c, False) for c in kids(s))
 
@@ -198,9 +233,13 @@ def gen(rng, tier, prop):
     quick = tier == "quick"
     depth = rng.choice([1, 2, 2, 3, 3] if quick else [1, 2, 2, 3, 3, 3])
     allow_dict = rng.random() < 0.55
-    shape = gen_shape(rng, depth, allow_dict)
+    allow_dyn = rng.random() < 0.35
+    shape = gen_shape(rng, depth, allow_dict, allow_dyn)
     if depth > 1 and shape == 0:
         shape = [1, [0, 0]] if rng.random() < 0.6 else [2, 2, 0]
+    if allow_dyn and not has_dyn(shape) and rng.random() < 0.6:
+        shape = rng.choice([[2, 0, 0], [2, 0, [1, [0, 0]]], [1, [[2, 0, 0], 0]]])
+    dyny = has_dyn(shape)
     start = rng.randint(1, 3)
     ncyc = rng.randint(3, 15 if quick else 40)
     end = start + ncyc
@@ -215,7 +254,7 @@ def gen(rng, tier, prop):
         ok = True
         cur = shape
         for i in p:
-            if kind(cur) == 3:
+            if kind(cur) == 3 or is_dyn(cur):      # elements of dictionaries / unbounded lists do not exist at wiring time
                 ok = False
                 break
             cur = kids(cur)[i]
@@ -236,7 +275,7 @@ def gen(rng, tier, prop):
     hot = rng.random()
     while t < end:
         if rng.random() < 0.3 + 0.5 * hot:
-            nops = rng.choice([1, 1, 1, 2, 2, 3, 4])
+            nops = rng.choice([1, 1, 1, 2, 2, 3, 4] if not dyny else [1, 2, 2, 3, 3, 4, 5])
             for opi in range(nops):
                 r = rng.random()
                 if dicty and r >= 0.75:
@@ -267,6 +306,10 @@ def gen(rng, tier, prop):
                     p = rand_path(rng, shape, "dict")
                     if p is not None and kind(shape_at(shape, p)) == 3:
                         line = [3, t, 4 if rng.random() < 0.5 else 5, len(p)] + p + [rng.choice(KEYS)]
+                if line and line[2] in (2, 3) and dyny and touches_dyn(shape, line[4:4 + line[3]]):
+                    # unbounded lists: only child writes are scripted (an element that reports twice in one cycle -
+                    # written then invalidated - is linked twice into the list's modified ring; whole values not built)
+                    line = None
                 if line:
                     # a key erased earlier in this cycle must not be navigated through / re-created in it
                     # (the slot is resurrected with its old state; dictionary slot life-cycle is C05's subject)
@@ -399,7 +442,7 @@ class Spec:
 
     def add_subtree(self, p, s):
         self.lmt[p] = MIN_DT
-        if kind(s) in (1, 2):
+        if kind(s) in (1, 2) and not is_dyn(s):
             for i, c in enumerate(kids(s)):
                 self.add_subtree(p + (i,), c)
 
@@ -426,16 +469,28 @@ class Spec:
                 s = ks[i]
         return True
 
-    def ensure(self, p, t):
-        """create dictionary keys on the way to p (the harness navigates with mutation.at(key))"""
+    def ensure(self, p, t, create=True):
+        """create dictionary keys on the way to p (the harness navigates with mutation.at(key)) and grow
+        unbounded lists up to the addressed index (growth by itself marks nothing)"""
         s = self.shape
         for n, i in enumerate(p):
             if kind(s) == 3:
                 q = p[:n + 1]
                 if q not in self.lmt:
+                    if not create:
+                        return None
                     self.add_subtree(q, s[1])
                     self.touch_up(p[:n], t)
                 s = s[1]
+            elif is_dyn(s):
+                if i < 0:
+                    return None
+                j = 0
+                while p[:n] + (j,) in self.lmt:
+                    j += 1
+                for jj in range(j, i + 1):
+                    self.add_subtree(p[:n] + (jj,), s[2])
+                s = s[2]
             else:
                 ks = kids(s)
                 if i < 0 or i >= len(ks):
@@ -447,7 +502,7 @@ class Spec:
         """returns the set of endpoints invalidated (they were valid) by this operation"""
         killed = set()
         if op == 6:
-            if self.keys_exist(p) and shape_at(self.shape, p) == 0:
+            if self.keys_exist(p) and shape_at(self.shape, p) == 0 and self.ensure(p, t, create=False) == 0:
                 self.touch_up(p, t)
             return killed
         s = self.ensure(p, t)
@@ -496,7 +551,7 @@ def oracle(prop, case, out):
         by_t.setdefault(t, []).append((op, p, args))
     lines_by_t = {}
     for l in out:
-        if l and l[0] in (20, 21, 22, 23, 24, 26, 29, 31):
+        if l and l[0] in (20, 21, 22, 23, 24, 26, 29, 31, 32):
             tt = l[1] if l[0] in (23, 29) else l[2]
             lines_by_t.setdefault(tt, []).append(l)
     if any(l and l[0] in (27, 28) for l in out):
@@ -577,7 +632,7 @@ def oracle(prop, case, out):
         # per-tick delta) are exactly the live keys whose element was written or invalidated in this cycle
         dict_lines = {}
         for l in ls:
-            if l[0] in (22, 31):
+            if l[0] in (22, 31, 32):
                 who, pl = l[1], l[3]
                 dict_lines[(l[0], who, tuple(l[4:4 + pl]))] = l[4 + pl:]
         for (code, who, p), rest in sorted(dict_lines.items()):
@@ -592,6 +647,12 @@ def oracle(prop, case, out):
             if code == 31 and rest[0] == 1 and rest[1:] != exp:
                 fails.append(("dict_delta_keys", "t=%d %s ep=%s delta_value().modified has keys %s, elements written/invalidated in this cycle: %s"
                               % (t, side, list(p), rest[1:], exp)))
+            if code == 32 and rest[0] == 1 and rest[1:] != exp:
+                fails.append(("list_modified_indices", "t=%d %s ep=%s modified_indices()=%s, children written in this cycle: %s"
+                              % (t, side, list(p), rest[1:], exp)))
+            if code == 32 and who == 0 and rest[0] != int(spec.lmt[p] == t):
+                fails.append(("list_modified_indices", "t=%d producer ep=%s list modified=%d, written in this cycle: %s"
+                              % (t, list(p), rest[0], spec.lmt[p] == t)))
             if code == 31 and who == 0 and rest[0] != int(spec.lmt[p] == t):
                 fails.append(("dict_delta_keys", "t=%d producer ep=%s dictionary delta readable=%d, written in this cycle: %s"
                               % (t, list(p), rest[0], spec.lmt[p] == t)))
@@ -646,7 +707,7 @@ PROP_KINDS = {
             "parent_without_child", "child_without_parent", "endpoint_missing", "endpoint_extra",
             "consumer_disagrees_valid", "consumer_disagrees_modified", "consumer_disagrees_lmt", "consumer_disagrees_value",
             "consumer_disagrees_delta_readable", "consumer_disagrees_delta",
-            "not_notified", "spurious_notify", "notify_count", "dict_modified_keys", "dict_delta_keys", "cycle_missing", "write_throws", "harness_error",
+            "not_notified", "spurious_notify", "notify_count", "dict_modified_keys", "dict_delta_keys", "list_modified_indices", "cycle_missing", "write_throws", "harness_error",
             # genuine deviations of the unchanged tree, listed in known_findings.json (docs/notes-track.md F1-F3)
             "consumer_after_invalidate_modified", "consumer_after_invalidate_lmt", "consumer_stale_delta", "whole_write_throws"},
 }
@@ -659,6 +720,7 @@ def stats(case, out):
           "op_whole": sum(1 for o in ops if o[1] == 3), "op_dict": sum(1 for o in ops if o[1] in (4, 5)),
           "op_direct_element_write": sum(1 for o in ops if o[1] == 6),
           "has_dict": int(shape is not None and has_dict(shape)),
+          "has_unbounded_list": int(shape is not None and has_dyn(shape)),
           "depth3": int(shape is not None and depth_of(shape) >= 3),
           "late_bound": sum(1 for c in cons if c[0] == 3),
           "child_consumers": sum(1 for c in cons if c[0] == 2)}
